@@ -34,10 +34,11 @@ Fixpoint wrap_to_edge (periodic : list bool) (nx ix : list Z) : list Z * list Z 
 Section Ops.
   Context {T : Type} (O : NumOps T).
 
-  (* value_to_bin_scalar_bound : floor, `%= nx` in periodic dimensions (C++ %: sign of the dividend), then clamped *)
+  (* value_to_bin_scalar_bound : floor; in periodic dimensions `%= nx` and `+= nx` when negative (the wrapped bin;
+     before the repair the negative remainder was clamped to 0); then clamped *)
   Definition value_to_bin_bound (periodic : bool) (lower w : T) (n : Z) (x : T) : Z :=
     let i := value_to_bin O lower w x in
-    let i := if periodic then Z.rem i n else i in
+    let i := if periodic then (let r := Z.rem i n in if r <? 0 then r + n else r) else i in
     if i <? 0 then 0 else if i >=? n then n - 1 else i.
   Fixpoint bins_bound (periodic : list bool) (lower w : list T) (nx : list Z) (x : list T) : list Z :=
     match periodic, lower, w, nx, x with
@@ -79,6 +80,25 @@ Section Ops.
   Definition multiply_constant (a : T) (d : list T) : list T := map (fun v => nmul O v a) d.
   Definition add_constant (a : T) (d : list T) : list T := map (fun v => nadd O v a) d.
   Definition remove_small_values (a : T) (d : list T) : list T := map (fun v => if nltb O v a then a else v) d.
+
+  (* bin_distance_from_boundaries(values): the smallest distance, in bins, from the boundaries of the non-periodic
+     dimensions; negative when a value lies outside (scalar non-periodic variables: sqrt(dist2) = |difference|) *)
+  Definition signed_bins (below : bool) (a b w : T) : T :=
+    let dd := ndiv O (nabs O (nsub O a b)) w in if below then nneg O dd else dd.
+  Fixpoint bin_distance (per : list bool) (lower upper w x : list T) (acc : T) : T :=
+    match per, lower, upper, w, x with
+    | p :: ps, l :: ls, u :: us, wi :: ws, xi :: xs =>
+        if p then bin_distance ps ls us ws xs acc
+        else
+          let dl := signed_bins (nltb O xi l) xi l wi in
+          let du := signed_bins (nltb O u xi) xi u wi in
+          let acc := if nltb O dl acc then dl else acc in
+          let acc := if nltb O du acc then du else acc in
+          bin_distance ps ls us ws xs acc
+    | _, _, _, _, _ => acc
+    end.
+  Definition bin_distance_from_boundaries (per : list bool) (lower upper w x : list T) : T :=
+    bin_distance per lower upper w x (nofZ O 10000000000000000).
 
   (* init_from_colvars(add_extra_bin = true): values at the edges instead of the centres of the bins *)
   Definition extra_bin_dim (periodic : bool) (l u w : T) : T * T :=
